@@ -5,7 +5,8 @@
 From Coq Require Import List ZArith Bool String.
 From Lungo.Model Require Import Match.
 From Lungo.Gen Require Import MatchOps.
-From Lungo.Proofs Require Import MatchLaws GenMatchOps.
+From Lungo.Spec Require Import RefMatch.
+From Lungo.Proofs Require Import MatchLaws GenMatchOps MatchRef.
 Import ListNotations.
 Open Scope string_scope.
 
@@ -144,6 +145,81 @@ Theorem C10_lt_date_brackets : forall d f t, is_op f = false ->
    exists c, In c (candidates d f) /\ exists u, c = VDate u /\ (u < t)%Z).
 Proof. exact lt_date_brackets. Qed.
 Print Assumptions C10_lt_date_brackets.
+
+(* ---- agreement with the reference semantics on the core domain ---- *)
+
+(* Spec/RefMatch.v: `RefMatch.holds` is the reference truth value (DESIGN.md
+   8.1), `core_covered d f` the core domain (8.2: D1 no array directly in an
+   array, D2 non-null scalar operands and leaf operators only under fan-out,
+   D3 no numeric field names inside array elements, D4 well-formed
+   arguments) restricted to the operators covered by the proof:
+   $and $or $nor, implicit and, literal equality, $eq $gt $gte $lt $lte $ne,
+   $in $nin, $exists, $type, $size, $mod, $bitsAllSet/AllClear/AnySet/AnyClear,
+   $not.  $all and $elemMatch are in `core` but only tested (family matchref);
+   $jsonSchema has no reference semantics here. *)
+Theorem C10_match_ref_partial : forall d f,
+  core_covered d f -> Match d f = Ok (RefMatch.holds d f).
+Proof. exact match_ref_partial. Qed.
+Print Assumptions C10_match_ref_partial.
+
+Theorem C10_match_ref_example :
+  core_covered [("a", VArr [VDoc [("b", VInt32 1)]])] [("a.b", VDoc [("$in", VArr [VInt32 2; VString "x"])])]
+  /\ Match [("a", VArr [VDoc [("b", VInt32 1)]])] [("a.b", VDoc [("$in", VArr [VInt32 2; VString "x"])])] = Ok false.
+Proof. vm_compute. split; reflexivity. Qed.
+
+(* where the domain ends: lungo and the reference differ (lungo's answer last) *)
+Theorem C10_null_fanout_refuted :
+  differs [("a", VArr [VDoc [("b", VInt32 1)]; VDoc [("c", VInt32 2)]])] [("a.b", VNull)] false.
+Proof. exact null_fanout_refuted. Qed.
+Print Assumptions C10_null_fanout_refuted.
+
+Theorem C10_numeric_field_refuted :
+  differs [("a", VArr [VDoc [("0", VInt32 5)]])] [("a.0", VInt32 5)] false.
+Proof. exact numeric_field_refuted. Qed.
+Print Assumptions C10_numeric_field_refuted.
+
+Theorem C10_nested_array_refuted :
+  differs [("a", VArr [VArr [VDoc [("b", VInt32 1)]]])] [("a.b", VInt32 1)] true.
+Proof. exact nested_array_refuted. Qed.
+Print Assumptions C10_nested_array_refuted.
+
+Theorem C10_array_operand_fanout_refuted :
+  differs [("a", VArr [VDoc [("b", VArr [VInt32 1; VInt32 2])]; VDoc [("b", VArr [VInt32 3])]])]
+          [("a.b", VArr [VInt32 3])] false.
+Proof. exact array_operand_fanout_refuted. Qed.
+Print Assumptions C10_array_operand_fanout_refuted.
+
+Theorem C10_type_null_missing_refuted :
+  differs [("b", VInt32 1)] [("a", VDoc [("$type", VString "null")])] true.
+Proof. exact type_null_missing_refuted. Qed.
+Print Assumptions C10_type_null_missing_refuted.
+
+Theorem C10_type_array_fanout_refuted :
+  differs [("a", VArr [VDoc [("b", VArr [VInt32 1])]])] [("a.b", VDoc [("$type", VString "array")])] false.
+Proof. exact type_array_fanout_refuted. Qed.
+Print Assumptions C10_type_array_fanout_refuted.
+
+Theorem C10_exists_fanout_empty_refuted :
+  differs [("a", VArr [VDoc [("b", VArr [])]])] [("a.b", VDoc [("$exists", VBool true)])] false.
+Proof. exact exists_fanout_empty_refuted. Qed.
+Print Assumptions C10_exists_fanout_empty_refuted.
+
+Theorem C10_size_fanout_refuted :
+  differs [("a", VArr [VDoc [("b", VArr [VDoc [("c", VArr [VInt32 1; VInt32 2])]])]])]
+          [("a.b.c", VDoc [("$size", VInt32 2)])] false.
+Proof. exact size_fanout_refuted. Qed.
+Print Assumptions C10_size_fanout_refuted.
+
+Theorem C10_size_fanout_phantom_refuted :
+  differs [("a", VArr [VDoc [("b", VArr [])]])] [("a.b.c", VDoc [("$size", VInt32 0)])] true.
+Proof. exact size_fanout_phantom_refuted. Qed.
+Print Assumptions C10_size_fanout_phantom_refuted.
+
+Theorem C10_all_mixed_refuted :
+  differs [("a", VArr [VInt32 1; VInt32 2])]
+          [("a", VDoc [("$all", VArr [VInt32 1; VArr [VInt32 1; VInt32 2]])])] false.
+Proof. exact all_mixed_refuted. Qed.
+Print Assumptions C10_all_mixed_refuted.
 
 (* ---- non-vacuity: the hypotheses are met and both truth values occur ---- *)
 
